@@ -899,7 +899,8 @@ func (self *PathNode) should2(op string, t thrift.Type, t2 thrift.Type) *PathNod
 func getStrHash(next *[]PathNode, key string, N int) *PathNode {
 	h := int(caching.StrHash(key) % uint64(N))
 	s := (*PathNode)(rt.IndexPtr(*(*unsafe.Pointer)(unsafe.Pointer(next)), sizePathNode, h))
-	for s.Path.t == PathStrKey {
+	// at most N probes: children appended after the load may have filled every slot
+	for i := 0; i < N && s.Path.t == PathStrKey; i++ {
 		if s.Path.str() == key {
 			return s
 		}
@@ -924,7 +925,8 @@ func seekIntHash(next unsafe.Pointer, key uint64, N int) int {
 func getIntHash(next *[]PathNode, key uint64, N int) *PathNode {
 	h := int(key % uint64(N))
 	s := (*PathNode)(rt.IndexPtr(*(*unsafe.Pointer)(unsafe.Pointer(next)), sizePathNode, h))
-	for s.Path.t == PathIntKey {
+	// at most N probes: children appended after the load may have filled every slot
+	for i := 0; i < N && s.Path.t == PathIntKey; i++ {
 		if uint64(s.Path.int()) == key {
 			return s
 		}
